@@ -23,7 +23,7 @@ TITLE = 'strict vs non-strict'
 LEVEL = 'exploration'
 SHARDS = {'quick': 16, 'thorough': 16}
 FLOOR = {'quick': 800, 'thorough': 10000}
-REQUIRED_MONITORS = {'valid-pairs-compared': 1000, 'strict-rejections-located': 800, 'deferred-raised': 300, 'deferred-dead': 300, 'same-text-planted-twice': 100}
+REQUIRED_MONITORS = {'valid-pairs-compared': 1000, 'strict-rejections-located': 800, 'deferred-raised': 300, 'deferred-dead': 300, 'same-text-planted-twice': 100, 'empty-expression-sites': 100}
 RULE = ('valid layer: a case = (program, binding table), strict and non-strict renderings compared; planted layer: a case = '
         '(program, planted slot, planting form in {alone, first pipe alternative, later pipe alternative, under not:, string: '
         'part, ${} part}, binding table); non-trivial: valid iff >=1 expression, planted always; distinct by (site kind, '
@@ -287,6 +287,7 @@ def unit_explains(root, table, shadow, got, groups, offsets, reported):
 
 def run(ctx):
     monitors.install(ctx, tokalg=False)
+    layer_empty(ctx)
     rng = ctx.rng
     n = 100 if ctx.quick else 1800
     maxdepth = 1 if ctx.quick else 2
@@ -393,6 +394,59 @@ def run(ctx):
                 ctx.violation(key, 'template %r planted %r (%s at %s), table %r\n  real  %r\n  model %r' % (
                     src, text, form, site, table, got, want),
                     {'kind': 'planted', 'src': src, 'text': text, 'table': {str(k): v for k, v in table.items()}})
+
+
+EMPTY_SITES = ['<p tal:content="">x</p>', '<p tal:replace="">x</p>', '<p tal:condition="">x</p>', '<p tal:define="x 1; a ">x</p>',
+               '<p tal:repeat="item ">x</p>', '<p tal:on-error="">${1/0}</p>', '<p tal:replace="structure ">x</p>', '<p tal:switch="">x</p>',
+               '<p tal:switch="1"><b tal:case="">x</b></p>', '<p tal:content="python:">x</p>', '<p tal:content="not:">x</p>',
+               '<p tal:content="nothing | ">x</p>', '<p tal:omit-tag="not:">x</p>', '<p tal:define="x ">x</p>',
+               '<p tal:content="structure python: ">x</p>', '<p tal:attributes="a python:">x</p>', '<p tal:content="exists:">x</p>']
+EMPTY_WRAPPERS = [('reached', '%s', None), ('reached-after-text', 'before\n  <i>t</i> %s after', None),
+                  ('reached-in-repeat', '<ul><li tal:repeat="k (1, 2)">%s</li></ul>', None),
+                  ('dead-false-condition', '[<div tal:condition="False">%s</div>]', '[]'),
+                  ('dead-empty-repeat', '[<div tal:repeat="k ()">%s</div>]', '[]'),
+                  ('dead-replaced', '[<div tal:replace="string:R">%s</div>]', '[R]'),
+                  ('dead-case', '[<div tal:switch="1"><b tal:case="2">%s</b></div>]', '[<div></div>]')]
+
+
+def layer_empty(ctx):
+    """EMPTY expressions (zero-length token): strict rejects them at construction; non-strict raises the same
+    error (message, token, offset) when and only when the site is reached."""
+    from chameleon import PageTemplate
+    from chameleon.exc import ExpressionError
+    work = [(s, w) for s in EMPTY_SITES for w in EMPTY_WRAPPERS]
+    for idx, (site, (wname, wrap, dead_out)) in enumerate(work):
+        if idx % ctx.nshards != ctx.shard:
+            continue
+        src = wrap % site
+        replay = {'kind': 'planted', 'src': src, 'text': ''}
+        ctx.mon('empty-expression-sites')
+        ctx.case(key=('empty', site, wname), nontrivial=True)
+        try:
+            PageTemplate(src, strict=True)
+            ctx.violation('strict-accepts-empty-expression', 'strict compilation accepted %r' % src, replay)
+            continue
+        except ExpressionError as e:
+            strict = (e.args[0], str(e.token), e.offset)
+        except Exception as e:
+            ctx.violation('strict-empty-expression-other-error', 'strict compilation of %r raised %s: %s' % (src, type(e).__name__, e), replay)
+            continue
+        try:
+            t = PageTemplate(src, strict=False)
+        except Exception as e:
+            ctx.violation('non-strict-compilation-fails', 'non-strict compilation of %r raised %s: %s' % (
+                src, type(e).__name__, str(e).split('\n')[0]), replay)
+            continue
+        try:
+            got = ('out', t())
+        except ExpressionError as e:
+            got = ('error', (e.args[0], str(e.token), e.offset))
+        except Exception as e:
+            got = ('other', '%s: %s' % (type(e).__name__, str(e).split('\n')[0][:100]))
+        want = ('out', dead_out) if dead_out is not None else ('error', strict)
+        if got != want:
+            ctx.violation('empty-expression-' + ('raised-iff-reached-violated' if got[0] != want[0] else 'deferred-error-differs-from-strict-error'),
+                          'template %r (%s): strict error %r; non-strict rendering gave %r, expected %r' % (src, wname, strict, got, want), replay)
 
 
 def replay(data):
